@@ -6,6 +6,7 @@ from hypothesis import strategies as st
 from ..gen import model as M
 from ..runner import CaseResult
 from .. import netcase as N
+from .. import cudacase as CU
 from ..ctext.extract import LayoutViolation
 from ..ctext.lexer import CInvalidC, CParseError, parse_expression
 from . import c01
@@ -39,6 +40,9 @@ def budget(tier):
 def _case(draw, big=False):
     case = draw(M.network(max_species=20 if big else 9, max_reactions=40 if big else 10, thermal=True, modifiers=True))
     case["route"] = "api"
+    # a fraction of the cases also executes JacKernel on a batch of cells (host emulation of the CUDA launch)
+    thermal = bool(case["cooling"] or case["heating"])
+    case["cuda"] = draw(CU.batch()) if draw(st.integers(0, 3 if (thermal or case["ode_mod"]) else 9)) == 0 else None
     return case
 
 
@@ -137,6 +141,7 @@ def _locate_invalid(proj, which):
 def check_case(case, tier):
     N.reset_naunet_state()
     failures = []
+    extra = {}
     labels = N.network_features(case)
     with N.Scratch() as d, N.ThermalPatch(case):
         try:
@@ -151,7 +156,14 @@ def check_case(case, tier):
             projs = {}
         for method, proj in projs.items():
             check_jac(case, proj, failures, method)
+        if case.get("cuda") and projs and not failures:
+            labels.append("cuda-batch-executed")
+            full = N.render(net, d / "cu", backends=[("cvode", "dense", "cpu"), ("cvode", "cusparse", "gpu")], templates="all")
+            f2, info = CU.run_batch(case["cuda"], full["dense"], full["cusparse"])
+            # C02 is about the Jacobian: discrepancies of the right-hand side belong to C01
+            failures += [(k, m) for k, m in f2 if "/fex/" not in k]
+            extra = dict(info)
     nontrivial = any(
         l in labels for l in ("repeated-reactant", "three-body", "catalyst", "thermal", "modifier-multidep")
     )
-    return CaseResult(failures, nontrivial, labels, sample=N.abridge(case))
+    return CaseResult(failures, nontrivial, labels, sample=N.abridge(case), extra=extra)
